@@ -50,21 +50,26 @@ func main() {
 		res.Note("no --driver: correspondence with the Lean model not checked")
 	}
 
+	lf, sp := probeVariant()
+	res.Note("variant of the new backend found in the tree: leafFix=%v sysProbeFix=%v", lf, sp)
+	res.Hit(fmt.Sprintf("variant:leafFix=%v", lf))
+	res.Hit(fmt.Sprintf("variant:sysProbeFix=%v", sp))
 	if f.Replay != "" {
 		replay(f, res, scratch)
 		os.RemoveAll(scratch)
 		lib.Finish(f, res)
 	}
 
+	t0 := time.Now()
 	var scs []scenario
 	for _, c := range corpus() {
 		scs = append(scs, c)
 	}
 	root := lib.NewRNG(f.Seed)
-	nRandom := f.Scale(20, 160)
+	nRandom := f.Scale(30, 160)
 	for i := 0; i < nRandom; i++ {
 		cfg := Config{Name: fmt.Sprintf("random-%d", i), SrcNew: i%2 == 1, Dst: []bool{false, true}}
-		sc := scenario{cfg: cfg, seed: root.Uint64(), n: f.Scale(34, 60), maxH: f.Scale(11, 16)}
+		sc := scenario{cfg: cfg, seed: root.Uint64(), n: f.Scale(24, 60), maxH: f.Scale(9, 16)}
 		switch {
 		case i%10 == 7:
 			// drains of system contracts: one backend at a time
@@ -106,6 +111,12 @@ func main() {
 				return
 			}
 			defer e.Close()
+			ts := time.Now()
+			defer func() {
+				if os.Getenv("C03_TIMING") != "" {
+					fmt.Fprintf(os.Stderr, "scenario %s start=%.1f dur=%.1f steps=%d\n", sc.cfg.Name, ts.Sub(t0).Seconds(), time.Since(ts).Seconds(), len(e.steps))
+				}
+			}()
 			recorded := 0
 			record := func() {
 				for _, fl := range e.fails[recorded:] {
@@ -149,6 +160,7 @@ func main() {
 		}(sc)
 	}
 	wg.Wait()
+	res.Note("scenarios: %d in %.1fs", len(scs), time.Since(t0).Seconds())
 
 	// one report per Sig: the shortest recorded history, shrunk
 	sort.SliceStable(all, func(i, j int) bool { return len(all[i].steps) < len(all[j].steps) })
@@ -179,6 +191,7 @@ func main() {
 			res.Mismatch(lib.Mismatch{Sig: fl.Sig, Input: rp, Model: fl.Query["model"], Impl: fl.Query["impl"]})
 		}
 	}
+	res.Note("total %.1fs", time.Since(t0).Seconds())
 	lib.Finish(f, res)
 }
 
